@@ -145,6 +145,27 @@ class ZSym:
     def __rmul__(self, o): return self._arith(o, lambda a, b: b * a, "*")
     def __neg__(self): return ZSym(-self.v)
 
+    # -- remainders: a fresh integer quotient with the defining inequalities -----------------
+    def _rem(self, o, kind):
+        o = _z(o)
+        c = zctx()
+        if not z3.is_rational_value(z3.simplify(o.v)) and not z3.is_int_value(z3.simplify(o.v)):
+            raise Concretization("remainder by a symbolic modulus")
+        k = c.new_int("quot")
+        a = self.v if self.v.sort() == z3.RealSort() else z3.ToReal(self.v)
+        m = o.v if o.v.sort() == z3.RealSort() else z3.ToReal(o.v)
+        r = a - m * z3.ToReal(k)
+        if kind == "floor":            # python %, np.mod, np.remainder: sign of the divisor (m > 0 here)
+            c.assume(z3.And(r >= 0, r < m), "x % m = x - m*floor(x/m)")
+        else:                          # np.fmod / math.fmod: truncated quotient, sign of the dividend
+            c.assume(z3.And(z3.Implies(a >= 0, z3.And(r >= 0, r < m)), z3.Implies(a < 0, z3.And(r > -m, r <= 0))), "fmod")
+        return ZSym(r)
+
+    def __mod__(self, o): return self._rem(o, "floor")
+    def remainder(self, o): return self._rem(o, "floor")
+    mod = remainder
+    def fmod(self, o): return self._rem(o, "trunc")
+
     def __truediv__(self, o):
         if isinstance(o, Opaque):
             return OPAQUE
